@@ -49,10 +49,11 @@ Definition get_u8 (s : bytes) : res (byte * bytes) := match s with b :: r => Ok 
 Definition get_i16 (s : bytes) : res (Z * bytes) := match s with a :: b :: r => Ok (i16_of a b, r) | _ => Panic end.
 Definition get_i32 (s : bytes) : res (Z * bytes) := match s with a :: b :: c :: d :: r => Ok (i32_of a b c d, r) | _ => Panic end.
 (** [n] bytes or panic ([get_i64], [copy_to_slice], the text-parameter [get_u8] loop) *)
-Definition take_exact (n : nat) (s : bytes) : res (bytes * bytes) :=
-  if (n <=? length s)%nat then Ok (firstn n s, skipn n s) else Panic.
+(* lengths are compared in [Z] before any conversion to [nat]: a length field can announce 2 GiB *)
+Definition take_exact (n : Z) (s : bytes) : res (bytes * bytes) :=
+  if n <=? blen s then Ok (firstn (Z.to_nat n) s, skipn (Z.to_nat n) s) else Panic.
 (** [cursor.advance(min(len, remaining))] *)
-Definition advance_min (n : nat) (s : bytes) : bytes := skipn n s.
+Definition advance_min (n : Z) (s : bytes) : bytes := if blen s <=? n then [] else skipn (Z.to_nat n) s.
 
 Fixpoint get_n {A} (g : bytes -> res (A * bytes)) (n : nat) (s : bytes) : res (list A * bytes) :=
   match n with
@@ -159,7 +160,7 @@ Definition read_frame (chk : bool) (s : bytes) : fres :=
     else if len <? -1 then FPanic
     else if len <? 4 then FErr
     else let n := Z.to_nat (len - 4) in
-         if (n <=? length r)%nat then FOk c len (firstn n r) (skipn n r) else FMore
+         if len - 4 <=? blen r then FOk c len (firstn n r) (skipn n r) else FMore
   | _ => FMore
   end.
 
@@ -180,7 +181,7 @@ Definition get_startup (s : bytes) : sres * bytes :=
     let len := i32_of a b c d in
     if len <? 4 then (SPanic, r)
     else let n := Z.to_nat (len - 4) in
-         if (n <=? length r)%nat then
+         if len - 4 <=? blen r then
            let body := firstn n r in let rest := skipn n r in
            match body with
            | w :: x :: y :: z :: ps =>
@@ -243,7 +244,7 @@ Definition read_password (chk : bool) (s : bytes) : pwres :=
            if len <? -2147483644 then (if chk then PwPanic else PwMore)   (* i32 overflow; wraps to ~2 GiB: calloc + wait *)
            else if len <? 4 then PwPanic                                  (* negative as usize: capacity overflow *)
            else let n := Z.to_nat (len - 4) in
-                if (n <=? length r)%nat then PwOk (firstn n r) (skipn n r) else PwMore
+                if len - 4 <=? blen r then PwOk (firstn n r) (skipn n r) else PwMore
          | _ => PwMore
          end
   end.
@@ -321,11 +322,11 @@ Fixpoint bind_params (ph : list Z) (f : pfmt) (i : nat) (count : nat) (s : bytes
   | O => Ok tt
   | S k =>
     '(l, s1) <- get_i32 s ;;
-    let len := Z.to_nat (Z.max l 0) in
+    let len := Z.max l 0 in
     b <- fmt_at f i ;;
     if in_ph ph i then
       if b then
-        (if (len =? 2)%nat || (len =? 4)%nat || (len =? 8)%nat
+        (if (len =? 2) || (len =? 4) || (len =? 8)
          then '(_, s2) <- take_exact len s1 ;; bind_params ph f (S i) k s2
          else bind_params ph f (S i) k (advance_min len s1))
       else '(_, s2) <- take_exact len s1 ;; bind_params ph f (S i) k s2
